@@ -115,6 +115,7 @@ pub struct Outcome {
     pub hash: u64,
     pub ctor_failed: bool,
     pub ctor_unavailable: bool,
+    pub trace: Option<Vec<[u64; 5]>>,
 }
 
 fn requests_memory(op: &Op) -> bool {
@@ -139,11 +140,18 @@ fn fmt_inflight(p: *const ()) -> String {
 }
 
 pub fn run_history(entry: &ConfigEntry, ops: &[Op], params: &RunParams, groups: u32, last_only: bool, probes: bool) -> Outcome {
+    run_history_ex(entry, ops, params, groups, last_only, probes, false)
+}
+
+pub fn run_history_ex(entry: &ConfigEntry, ops: &[Op], params: &RunParams, groups: u32, last_only: bool, probes: bool, want_trace: bool) -> Outcome {
     slab::select(0);
     slab::reset(0, params.slab);
     let _ = crash::take_last_panic();
     let opts = RunOpts { groups, h: params.h, last_only, raw_roundtrip: params.roundtrip, probes };
     let mut exec = Exec::new(ops, &opts);
+    if want_trace {
+        exec.trace = Some(Vec::with_capacity(ops.len()));
+    }
     let ctx = InflightCtx { cfg: &entry.cfg, params, ops };
     crash::set_inflight_lazy(&ctx as *const _ as *const (), fmt_inflight);
     let mut out = Outcome::default();
@@ -162,6 +170,7 @@ pub fn run_history(entry: &ConfigEntry, ops: &[Op], params: &RunParams, groups: 
     out.cover = exec.cover;
     out.disabled_at = exec.disabled_at;
     out.hash = exec.state_hash;
+    out.trace = exec.trace.take();
     if let Some(v) = exec.viol.take() {
         out.viol = Some((v.group, v.step, v.msg));
     }
